@@ -11,7 +11,14 @@ Case syntax (one line):   ddl | <op> ; <op> ; …
         ak <t> a+b | ak <t> ^a     ALTER TABLE t ADD CONSTRAINT UNIQUE / PRIMARY KEY
         ac <t> <col>:<type>[=d]    ALTER TABLE t ADD COLUMN          dc <t> <col>    ALTER TABLE t DROP COLUMN
         sn <t> <col> | dn <t> <col>   ALTER COLUMN SET / DROP NOT NULL      dt <t>   DROP TABLE
+        dtc <t>                    DROP TABLE t CASCADE                  cin <name> <t> a+b   CREATE UNIQUE INDEX <name> ON t (a, b)
         sel / ins / upd / del      as engine `hist`
+        vacuum                     VACUUM (no logical effect; generated only while no session is open)
+        audit                      only as the last op: the final observation ends with `ix=<n>`, the number of live index
+                                   relations in the catalog = the number of keys of the live tables (the model's count)
+  well-formed: an index name (explicit, or the implicit ix<t><cols> of `ci`) is used again only after the table it was created
+        on was dropped by an autocommit DROP or by a session that then commits (the model does not know index names);
+        anything else is `bad-op` on both sides
   output one token per op (`ddl` = DDL succeeded; otherwise as `hist`: ok, ok<n>, [rows], notfound, constraint, type, other,
         conflict, nosession), then ` | ` and for every table name of the case `<name>=[rows]` or `<name>=notfound`.
   model flags: the Defects of Db; pseudo-flags `abs` (abstract machine Ddl.Spec) and `nosort`.
@@ -39,7 +46,12 @@ PROP = {
             "committed; reopen, also with an open session holding DML and DDL. A further family (60 / 600 cases): DROP TABLE in a session that rolls back or is dropped, then — after reads, an insert or a "
             "reopen — a DROP TABLE that commits, the name probed, created again with another shape and read, also across reopen. "
             "And (40 / 400 cases) CREATE UNIQUE INDEX / ADD CONSTRAINT over colliding rows: refused, the table stays usable, the DDL "
-            "succeeds once the duplicates are deleted. At most one finding feature per case (tags `kf:…`). "
+            "succeeds once the duplicates are deleted. And (60 / 600 cases) tables with named / unnamed unique indexes and declared keys "
+            "dropped by plain DROP TABLE or DROP … CASCADE (autocommit, committed session, after a rolled-back DROP), VACUUM / "
+            "reopen, the table name and the index names used again (same table or another one), ending in the catalog audit (live "
+            "index relations = keys of the live tables). And (30 / 300 cases) a transaction refused at COMMIT — same row, same unique "
+            "key, or same table name — that also inserted elsewhere and created a table, followed by committed work, reopen and "
+            "reads (the refused transaction stays rolled back across the close). At most one finding feature per case (tags `kf:…`). "
             "Non-trivial (`nt`) = a DDL statement inside a transaction that rolls back, or DML on a table altered earlier in the case.",
     "assumptions": [
         "in the model ADD / DROP COLUMN re-write the rows the altering transaction sees; rows inserted by a transaction that is "
@@ -73,7 +85,8 @@ TEXT = {
     "note": "Holds for the specification model. Repaired by fix: commits: ADD COLUMN always failed; two open transactions creating the "
             "same name both committed (the second creator is now refused, and the first one's entry in the name index is no longer replaced); DROP TABLE freed the pages at once (rollback could not "
             "bring the table back, concurrent readers failed); the catalog's own B+tree page broke after about six entries; a CREATE UNIQUE INDEX / ADD CONSTRAINT failing on colliding "
-            "rows left the table pointing to a missing index. Listed "
+            "rows left the table pointing to a missing index; a plain DROP TABLE left the table's indexes in the catalog (names taken, "
+            "pages never freed). Listed "
             "findings: ALTER inside a rolled-back transaction stays (exact, flag updateKeepsInserterXmin, pinned); the check at commit "
             "compares created names instead of re-checking the catalog (exact, flag commitChecksInsertedKeysOnly: create + drop in one "
             "transaction still blocks the name); first creator wins on relation names (exact, flag createRefusedWhileNameHeld: CREATE TABLE "
